@@ -111,7 +111,7 @@ fn main() {
                     writeln!(out, "end").unwrap();
                     if t.error.is_some() {
                         errors += 1;
-                        if t.error.as_deref().map(|e| e.starts_with("HANG")).unwrap_or(false) {
+                        if t.error.as_deref().map(|e| e.starts_with("HANG") || e.starts_with("BLOCKED")).unwrap_or(false) {
                             break;
                         }
                     }
@@ -130,7 +130,7 @@ fn main() {
                 if t.error.is_some() {
                     errors += 1;
                     // a hang leaves parked threads behind; stop this process
-                    if t.error.as_deref().map(|e| e.starts_with("HANG")).unwrap_or(false) {
+                    if t.error.as_deref().map(|e| e.starts_with("HANG") || e.starts_with("BLOCKED")).unwrap_or(false) {
                         break;
                     }
                 }
